@@ -191,6 +191,8 @@ class sym_int(int, metaclass=_IntMeta):
             return x
         if isinstance(x, SIntInt):
             return x.s
+        if type(x).__name__ == 'SymReal':
+            return x.__int__().s                 # truncation toward zero as a fresh symbolic integer (see SymReal.__int__)
         return int(x, *a)
 
 
